@@ -1,6 +1,6 @@
 (* C06 — reported uncertainties and p-values are coherent with the evaluations. *)
 From Coq Require Import List ZArith Reals Bool.
-From RSA Require Import Prelude Vec VecR CompareModel InferModel InferProofs.
+From RSA Require Import Prelude Vec VecR CompareModel InferModel InferProofs EvalModel EvalProofs.
 Import ListNotations.
 Open Scope R_scope.
 
@@ -109,3 +109,33 @@ Print Assumptions C06_nanmean_all_present.
 Theorem C06_nanmean_nothing_present : forall n, nanmean ROps (repeat None n) = None.
 Proof. exact nanmean_nothing_present. Qed.
 Print Assumptions C06_nanmean_nothing_present.
+
+(* bootstrap-type evaluations: the stored covariance is the sample covariance across resamples (C04); the pairwise-difference
+   and model-versus-ceiling variances read off it are the sample variances of the per-resample differences, hence >= 0, and the
+   n/(n-1) factor never shrinks them *)
+Theorem C06_reported_difference_variance : forall rows i j,
+  (i < length rows)%nat -> (j < length rows)%nat ->
+  length (nth i rows []) = length (nth j rows []) -> nth i rows [] <> [] ->
+  contrast_var ROps (cov_matrix ROps rows) (i, j) =
+  cov1 ROps (vsub ROps (nth i rows []) (nth j rows [])) (vsub ROps (nth i rows []) (nth j rows [])).
+Proof. exact reported_difference_variance. Qed.
+Print Assumptions C06_reported_difference_variance.
+
+Theorem C06_reported_difference_variance_nonneg : forall rows i j,
+  (i < length rows)%nat -> (j < length rows)%nat ->
+  length (nth i rows []) = length (nth j rows []) -> (2 <= length (nth i rows []))%nat ->
+  0 <= contrast_var ROps (cov_matrix ROps rows) (i, j).
+Proof. exact reported_difference_variance_nonneg. Qed.
+Print Assumptions C06_reported_difference_variance_nonneg.
+
+Theorem C06_reported_noise_ceiling_variance : forall rows i k,
+  (i < length rows)%nat -> (k < length rows)%nat ->
+  length (nth i rows []) = length (nth k rows []) -> nth i rows [] <> [] ->
+  nc_var ROps (cov_matrix ROps rows) i k =
+  cov1 ROps (vsub ROps (nth i rows []) (nth k rows [])) (vsub ROps (nth i rows []) (nth k rows [])).
+Proof. exact reported_noise_ceiling_variance. Qed.
+Print Assumptions C06_reported_noise_ceiling_variance.
+
+Theorem C06_bessel_at_least_one : forall n, (2 <= n)%nat -> 1 <= bessel ROps n.
+Proof. exact bessel_at_least_one. Qed.
+Print Assumptions C06_bessel_at_least_one.
